@@ -8,7 +8,7 @@ import random
 import threading
 import time
 
-from .common import ElemError, SrcError
+from .common import ElemError, SrcError, unpp
 
 U = 0.03
 HANG_S = 90.0
@@ -21,7 +21,8 @@ def _init(counts, running, maxrun, lock):
     _shared = (counts, running, maxrun, lock)
 
 
-def work(x, *, durs, fail):
+def work(x, *, durs, fail, retobj=()):
+    x = unpp(x)
     counts, running, maxrun, lock = _shared
     with lock:
         counts[x] += 1
@@ -32,6 +33,8 @@ def work(x, *, durs, fail):
         time.sleep(durs[x] * U)
         if x in fail:
             raise ElemError(x)
+        if x in retobj:
+            return ElemError(x, 'returned')     # an exception object RETURNED as the result
         return ('r', x)
     finally:
         with lock:
@@ -53,7 +56,10 @@ def gen_scenarios(rnd: random.Random, count, max_n=4):
         prefail = sorted(idx[nf:nf + npf])
         srcfail = rnd.choice([0, 0, 0] + list(range(1, n + 2)))
         brk = rnd.choice([None, None] + list(range(1, n + 1))) if n else None
+        okidx = [i for i in range(1, n + 1) if i not in fail and i not in prefail]
+        retobj = sorted(rnd.sample(okidx, min(len(okidx), rnd.choice([0, 0, 1])))) if okidx else []
         out.append({'n': n, 'cap': cap, 'conc': conc, 'retexc': rnd.random() < 0.5, 'fail': fail, 'prefail': prefail,
+                    'retobj': retobj,
                     'srcfail': srcfail, 'srcbase': False, 'maybreak': brk is not None, 'mode': 'sync', 'variant': variant,
                     'retx': rnd.random() < 0.6, 'break_at': brk, 'usepre': bool(prefail) or rnd.random() < 0.3,
                     # durations in units: early elements slow, later ones fast = completion order inverted
@@ -93,12 +99,14 @@ def _run_scenario(sc, ev):
     def pre(x):
         if x in prefail:
             raise ElemError(x, 'pre')
-        return x
+        return ('pp', x)      # TRANSFORMING preprocessor
 
     retx, retexc, brk = sc['retx'], sc['retexc'], sc['break_at']
     usepre = sc.get('usepre') or bool(prefail)
 
     def classify_y(y):
+        if isinstance(y, ElemError) and y.site == 'returned':
+            return y.i, 'ok'
         if isinstance(y, ElemError):
             return y.i, 'err'
         if isinstance(y, tuple) and len(y) == 2 and y[0] == 'r':
@@ -120,6 +128,7 @@ def _run_scenario(sc, ev):
                     closed('none', 0)
                     break
                 x, y = v if retx else (0, v)
+                x = x if isinstance(x, int) else -1
                 yi, kind = classify_y(y)
                 ev.append({'ev': 'Yield', 'x': x, 'y': yi, 'kind': kind})
                 k += 1
@@ -133,7 +142,7 @@ def _run_scenario(sc, ev):
         except SrcError:
             closed('src', 0)
 
-    kw = dict(durs=sc['durs'], fail=sorted(fail))
+    kw = dict(durs=sc['durs'], fail=sorted(fail), retobj=sorted(sc.get('retobj') or []))
     if sc['variant'] == 'parmap':
         s = Stream(src())
         pk = {'preprocessor': pre} if usepre else {}
